@@ -61,6 +61,7 @@ ASSUMPTIONS = [
     '(it is held to its own reference again whenever what it serves has changed)',
 ]
 
+ELECTRON_MASS_U = 5.48579909065e-4   # u (CODATA 2018); an ion weighs its atom less charge electron masses
 TOL = 1e-5
 FLOOR = 1e-300
 EPS = 2.0 ** -52
@@ -440,7 +441,18 @@ def _random_atoms(rng, T, mm):
             atoms[(z, 0)] = rng.choice([1, 2, 3, 0.5])
             k = (z, a)
         atoms[k] = rng.choice([1, 2, 3, 5, 0.25, 1.5])
-    return [[z, a, n] for (z, a), n in atoms.items()]
+    out = []
+    for (z, a), n in atoms.items():
+        # "all sample formulas": a fifth of the atoms are written as ions (natural-element ions and isotope ions);
+        # an ion activates like its atom, its share of the sample mass is less its missing electrons
+        ions = list(_state['pt'].elements[z].ions) if rng.random() < 0.2 else []
+        out.append([z, a, n, rng.choice(ions)] if ions else [z, a, n])
+    return out
+
+
+def _atoms_of(case):
+    """(Z, A, count, charge) per atom of a sample case (charge 0 when the entry has none)."""
+    return [(int(e[0]), int(e[1]), e[2], int(e[3]) if len(e) > 3 else 0) for e in case['atoms']]
 
 
 def _sample_case(rng, T):
@@ -861,10 +873,9 @@ def check_relations(ctx, case):
 def _expected_sample(case, masses_only=False):
     """{row index: [reference activity per rest time]} from the atoms of the case."""
     R, T, mm = _state['R'], _state['T'], _state['mm']
-    atoms = [(int(z), int(a), n) for z, a, n in case['atoms']]
     weight = {}
-    for z, a, n in atoms:
-        weight[(z, a)] = n * (mm.iso[(z, a)][0] if a else mm.el[z][0])
+    for z, a, n, q in _atoms_of(case):
+        weight[(z, a)] = n * ((mm.iso[(z, a)][0] if a else mm.el[z][0]) - q * ELECTRON_MASS_U)
     total = math.fsum(weight.values())
     iso_mass = {}
     for (z, a), w in weight.items():
@@ -896,9 +907,10 @@ def _expected_sample(case, masses_only=False):
 def _formula_text(case):
     pt = _state['pt']
     parts = []
-    for z, a, n in case['atoms']:
+    for z, a, n, q in _atoms_of(case):
         sym = pt.elements[int(z)].symbol
-        parts.append('%s%s%s' % (sym, '[%d]' % a if a else '', repr(n) if n != 1 else ''))
+        ion = '{%s%s}' % (abs(q) if abs(q) != 1 else '', '+' if q > 0 else '-') if q else ''
+        parts.append('%s%s%s%s' % (sym, '[%d]' % a if a else '', ion, repr(n) if n != 1 else ''))
     return ''.join(parts)
 
 
@@ -1059,12 +1071,16 @@ def check_sample(ctx, case):
                 ctx.violation('Sample(%r)%s: its %s is %r, the calculation was made with %r'
                               % (stext, note, name, cur, passed), kind='sample-reread-state', attribute=name)
     if want:
-        ctx.distinct_case(('sample', tuple(sorted((int(z), int(a)) for z, a, _ in case['atoms'])), case['abundance']))
+        ctx.distinct_case(('sample', tuple(sorted((z, a) for z, a, _, _ in _atoms_of(case))), case['abundance']))
     ctx.count('sample.products_compared', len(set(got) | set(want)))
-    if any(a for _, a, _ in case['atoms']):
+    if any(a for _, a, _, _ in _atoms_of(case)):
         ctx.count('sample.with_explicit_isotope')
-    if any(not a for _, a, _ in case['atoms']):
+    if any(not a for _, a, _, _ in _atoms_of(case)):
         ctx.count('sample.with_natural_element')
+    if any(q and not a for _, a, _, q in _atoms_of(case)):
+        ctx.count('sample.with_natural_element_ion')
+    if any(q and a for _, a, _, q in _atoms_of(case)):
+        ctx.count('sample.with_isotope_ion')
     ctx.count('sample.abundance.' + case['abundance'])
     for name, tag in sorted((case.get('forms') or {}).items()):
         ctx.count('sample.forms.%s.%s' % (name, tag))
